@@ -744,14 +744,20 @@ def check_translated(prop, tier, seed, replay):
     if prop == 'C19':
         # 3a. macro namespace: a concrete offending macro is the failing input
         try:
-            names = sorted(set(sum((translate.macro_dump(['TROMPELOEIL_LONG_MACROS'], std) for std in ('c++14', 'c++17', 'c++20')), [])))
+            where = {}
+            for std in ('c++14', 'c++17', 'c++20'):
+                for n, form in translate.long_macro_dump(std)[1].items():
+                    where.setdefault(n, (form, std))
+            names = sorted(where)
             bad = [n for n in names if not n.startswith('TROMPELOEIL_')]
             stats['long_macro_names'] = len(names)
+            stats['long_macro_definition_forms'] = list(translate.LONG_FORMS)
             if bad:
+                form, std = where[bad[0]]
                 path = vlib.write_replay(prop, tier, seed, 'macros',
-                                         ['verdict violation', 'with -DTROMPELOEIL_LONG_MACROS the headers define macros outside the TROMPELOEIL_ prefix',
-                                          'reproduce: echo "#include <trompeloeil.hpp>" | g++ -std=c++17 -DTROMPELOEIL_LONG_MACROS -I/repo/include -E -dD -x c++ - | grep "#define %s"' % bad[0]],
-                                         bad)
+                                         ['verdict violation', 'with -D%s the headers define macros outside the TROMPELOEIL_ prefix' % form,
+                                          'reproduce: echo "#include <trompeloeil.hpp>" | g++ -std=%s -D%s -I/repo/include -E -dD -x c++ - | grep "#define %s"' % (std, form, bad[0])],
+                                         ['%s   (defined with -D%s at -std=%s)' % (n, where[n][0], where[n][1]) for n in bad])
                 violations.append([path, False])
                 found_input = True
         except translate.TranslateError as e:
